@@ -55,13 +55,15 @@ THEOREMS_C17 = [
     (_P17, 'EAO.C17.ev_le_slp', 'abstract: fixing the first stage to any decision that admits recourse in every scenario gives an SLP-feasible point; its mean value is <= every upper bound of the SLP value'),
     (_P17, 'EAO.C17.slp_eq_det_of_equal', 'abstract: all scenarios equal => SLP optimum = deterministic optimum'),
     (_P17, 'EAO.C17.slp_le_wait_and_see_problem', 'instance for makeSlp under SharePresentNS: SLP value of a feasible point <= mean of upper bounds of the per-scenario problems (each with its own full cost vector)'),
+    (_P17, 'EAO.C17.slp_glue', 'points w_0..w_S of the original problem (one per scenario, rows with columns < n) that agree on the present variables glue to one point of the SLP: feasible if every w_s is, and under SharePresentNS its SLP value is the mean of the scenario values of the w_s'),
+    (_P17, 'EAO.C17.ev_le_slp_problem', 'instance of ev_le_slp for makeSlp: the expected value of fixing the present to ANY common decision that admits recourse in every scenario (mean_s scenValue_s(w_s)) is attained by a feasible SLP point, hence <= every upper bound of the SLP value (EEV_k <= V_slp)'),
     (_P17, 'EAO.C17.slp_eq_det_of_equal_problem', 'instance for makeSlp: all samples equal to the own costs => SLP value <= every upper bound of the deterministic value'),
     (_P17, 'EAO.C17.robust_bounds', 'worst case of any feasible x <= smallest per-scenario upper bound; the maximiser of the worst case dominates the worst case of every feasible point'),
     (_P17, 'EAO.C17.robust_bounds_problem', 'instance for the robust target (robustObjective)'),
     (_P17, 'EAO.C17.robust_reported_value', 'if the problem\'s own cost vector is among the samples the worst case is at most the reported value'),
     ('EAO.Properties.C03', 'EAO.C03.robust_epigraph', 'the epigraph value handed to the solver is the minimum over the samples of -c_s.x'),
 ]
-PARTIAL_C17 = ['ev_le_slp is proved in abstract form; its concrete instance for makeSlp (fixing the present variables) is a TARGET comment in C17.lean and covered by the oracle chain EEV <= SLP <= WS on the real code']
+PARTIAL_C17 = []   # the former TARGET ev_le_slp_problem (concrete instance of ev_le_slp for makeSlp) is proved
 
 
 # ------------------------------------------------------------------ generator
